@@ -1379,22 +1379,48 @@ mod handle_cache_helpers {
                     // Another request cached this variant in the meantime. Leave the cache as is.
                     Ok(_) => Arc::new((compressed_response, params.into_headers())),
                     Err(params) => {
-                        let a = Arc::clone(resp.push_response(compressed_response, params));
-                        if let Some(cache) = &host.response_cache {
-                            cache.insert(
-                                0,
-                                lifetime.2.map(|dur| {
+                        // A new variant enters the cache on the same terms as a new item (see
+                        // `maybe_cache` and `insert_cache_item`): the handler's preference, the
+                        // method, the status code filter, no streaming body, the size limit
+                        // and `kvarn-cache-control` all apply to it.
+                        let admitted = get_cache(
+                            host,
+                            server_cache,
+                            compressed_response.get_identity().status(),
+                            request.method(),
+                            &future,
+                            || {},
+                        )
+                        .is_some();
+                        let variant_lifetime = comprash::server_cache_lifetime(
+                            compressed_response.get_identity().headers(),
+                        );
+                        match variant_lifetime {
+                            Some(variant_lifetime) if admitted => {
+                                let len = compressed_response.get_identity().body().len();
+                                let remaining = lifetime.2.map(|dur| {
                                     dur.saturating_sub(
                                         (OffsetDateTime::now_utc() - lifetime.0)
                                             .max(time::Duration::ZERO)
                                             .unsigned_abs(),
                                     )
-                                }),
-                                key,
-                                resp,
-                            );
+                                });
+                                // The item has a single lifetime: it ends when the first of its
+                                // variants expires.
+                                let lifetime = match (remaining, variant_lifetime) {
+                                    (Some(remaining), Some(variant)) => Some(remaining.min(variant)),
+                                    (remaining, variant) => remaining.or(variant),
+                                };
+                                let a =
+                                    Arc::clone(resp.push_response(compressed_response, params));
+                                if let Some(cache) = &host.response_cache {
+                                    cache.insert(len, lifetime, key, resp);
+                                }
+                                a
+                            }
+                            // Not to be cached: serve it, leave the cached item as it is.
+                            _ => Arc::new((compressed_response, params.into_headers())),
                         }
-                        a
                     }
                 }
             }
